@@ -500,6 +500,19 @@ var scenarios = []scenario{
 		w.connect("t1")
 		w.judge(seed, "sync_wakeup", qd)
 	}},
+	// sync_wakeup_serializable: a SERIALIZABLE change and a plain change are committed before the device has ever connected
+	// (the second one waits at the apply gate, as it should); then the device connects
+	{"sync_wakeup_serializable", func(seed int64, r *rand.Rand, qd time.Duration) {
+		w := newWorld(opts{})
+		defer w.stop()
+		w.target("t1", false)
+		w.change(true, "t1", "a")
+		w.quiet(qd/2, 5*qd)
+		w.change(false, "t1", "b")
+		w.quiet(qd/2, 5*qd)
+		w.connect("t1")
+		w.judge(seed, "sync_wakeup_serializable", qd)
+	}},
 	// wedged_target / requeue cycle: {t1 refuses, t2 fine}; the transaction controller is slower than the proposal
 	// controller, so the refusal of t1 is seen before t2's apply was started; then a change on t2
 	{"wedged_target", func(seed int64, r *rand.Rand, qd time.Duration) {
